@@ -69,6 +69,8 @@ types = [
         field("audit", ref("Inner"), optional=True),
         field("deep", ref("Outer"), optional=True),
     ]),
+    # a record whose only annotated field is a REQUIRED create-only one (no read-only field on its resource)
+    record("CoOnly", [field("sku", prim("string")), field("note", prim("string"), optional=True), field("inner", ref("Inner"), optional=True)]),
     record("KeyPart", [field("a", prim("string")), field("b", prim("int64"))]),
     record("ParamPart", [field("p", prim("string"), optional=True), field("q", prim("int32"), optional=True)]),
     {"complexKey": dict(named("CK"), Key={"name": "KeyPart", "namespace": "fam"}, Params={"name": "ParamPart", "namespace": "fam"})},
@@ -142,6 +144,13 @@ resources = [
     resource("fam.annotatedre", [("annotatedRe", ("id", prim("string")))], ref("Annotated"),
         [m("get", True), m("create", False, True), m("batch_create", False, True), m("update", True), m("partial_update", True, True), m("batch_partial_update", False)],
         ro=["id", "inner/b", "items/*/b", "audit", "deep/audit/b", "deep/tags/*/b"], co=["created", "attrs/*/a", "deep/attrs/*/b"]),
+    # one kind of annotation only: the generator picks the exclusion set per method from which lists are non-empty
+    resource("fam.coonly", [("coOnly", ("id", prim("int64")))], ref("CoOnly"),
+        [m("get", True), m("create", False), m("batch_create", False), m("update", True), m("batch_update", False), m("partial_update", True), m("batch_partial_update", False)],
+        ro=[], co=["sku", "inner/a"]),
+    resource("fam.roonly", [("roOnly", ("id", prim("int64")))], ref("Annotated"),
+        [m("get", True), m("create", False), m("batch_create", False), m("update", True), m("batch_update", False), m("partial_update", True), m("batch_partial_update", False)],
+        ro=["id", "inner/b", "audit"], co=[]),
 ]
 
 manifest = {"packageRoot": ROOT, "inputDataTypes": types, "dependencyDataTypes": [], "resources": resources}
